@@ -554,13 +554,12 @@ func sqExecM(site string, nparams int, toks []string) string {
 		}
 		args = append(args, v)
 	}
-	if len(args) != nparams {
-		return "bad-op"
-	}
 	params := make([]string, nparams)
-	argText := make([]string, nparams)
 	for i := range params {
 		params[i] = "p" + strconv.Itoa(i)
+	}
+	argText := make([]string, len(args)) // a wrong number of arguments is a legal op: an error
+	for i := range args {
 		argText[i] = args[i].text(nil, false, "")
 	}
 	defmac := "(defmac mm [" + strings.Join(params, " ") + "] ^" + tmpl.text(nil, false, "p") + ")"
@@ -568,8 +567,8 @@ func sqExecM(site string, nparams int, toks []string) string {
 	macdefs := defmac
 	outer := call
 	if site == "mac" {
-		qs := make([]string, nparams)
-		us := make([]string, nparams)
+		qs := make([]string, len(args))
+		us := make([]string, len(args))
 		for i := range qs {
 			qs[i] = "q" + strconv.Itoa(i)
 			us[i] = "~q" + strconv.Itoa(i)
@@ -1070,13 +1069,16 @@ func sqGenMain(g *Gen) {
 		if len(combos) > limit {
 			combos = combos[:limit]
 		}
-		// a few ill-typed ones (a non-list where a list is spliced): both sides must fail
+		// a few ill-typed ones (a non-list where a list is spliced) and a wrong arity:
+		// both sides must fail
 		if np > 0 {
 			bad := make([]string, np)
 			for i := range bad {
 				bad[i] = sqMacExprArgs[g.Rng.Intn(4)]
 			}
-			combos = append(combos, bad)
+			combos = append(combos, bad, bad[:np-1], append(append([]string(nil), bad...), "i:1"))
+			g.Count("m/wrong-arity")
+			g.Count("m/wrong-arity")
 		}
 		for _, args := range combos {
 			for _, site := range sites {
